@@ -40,3 +40,8 @@ def run(ctx):
                 args.update({"geometry": gname, "action": d.field.split("[")[0].split("(")[0]})
                 ctx.violation(MODULE, "replay:" + d.field.split("[")[0].split("(")[0], args,
                               {"frame": fr, "geometry": gname, "field": d.field, "expected": d.expected, "observed": d.observed})
+    # leg T: every frame constructed in recorded frame lives (explicit sizes, from data, unit-carrying arguments, slices,
+    # de-drifted and integrated frames, copies, frames loaded from .fil / .h5 / pickle files) and in the repository's own
+    # tests must have its axes on the uniform grid C05 describes (FrameTrace.tla clauses C05_*)
+    from .frame_t import frame_trace_leg
+    frame_trace_leg(ctx, "C05")
